@@ -719,6 +719,22 @@ def gen_sys_bursts(ctx):
                                           "cl": [[10, "write", W1, None]] + reads + [[30, "write", W2, 700]]})
 
 
+def gen_sys_eof(ctx):
+    """frames received, then the stream ends, then (or meanwhile) the client reads / writes.  The DoIP reader task closes
+    the connection when the stream ends (`finally: await self.close()`), so - unlike HSFZ - calls issued afterwards
+    fail at once and what is still queued is no longer handed out; a call blocked at that moment is woken"""
+    cfg = CFGS[0]
+    for seq in itertools.chain.from_iterable(itertools.product(["dT", "dO", "ap", "al"], repeat=n) for n in range(0, 4)):
+        frames = [sys_frame(c, cfg, i + 1) for i, c in enumerate(seq)]
+        for t_eof in (205, 405, 2505):
+            for prog in ([[300, "read", 300], [30, "read", 300], [30, "write", W1, 700]],
+                         [[10, "write", W1, None], [30, "read", None], [30, "read", 300]],
+                         [[10, "read", None], [30, "write", W1, None]]):
+                s = sys_script(cfg, prog, [(105, frames)])
+                s["gw"].append([t_eof, "eof"])
+                yield ("sys-eof", s)
+
+
 def gen_sys_random(ctx):
     rng = ctx.rng
     counter = [0]
@@ -793,6 +809,7 @@ def gen_sys_scripts(ctx):
     yield from gen_sys_exhaustive(ctx)
     yield from gen_sys_late_acks(ctx)
     yield from gen_sys_bursts(ctx)
+    yield from gen_sys_eof(ctx)
     for label, s in gen_sys_random(ctx):
         if label.endswith(":nodrain"):
             s["drain"] = 0
